@@ -227,6 +227,16 @@ def stateful_families():
     return {k: v for k, v in fam.items() if v}
 
 
+# identifiers in every letter case, quoted and not: what per-dialect-instance settings (normalization strategy) act on
+MIXED_CASE = [
+    "SELECT col, Col, COL, \"Quoted\", \"lower\", \"UPPER\" FROM tbl AS T",
+    "SELECT foo, Bar, BAZ FROM mixed WHERE Bar > 1",
+    "SELECT * FROM mixed",
+    "SELECT m.*, x.a FROM mixed AS m JOIN x ON x.a = m.foo",
+    "SELECT T.Col AS Alias1, t.col AS alias1 FROM Tbl AS T WHERE T.COL = 1 ORDER BY Alias1",
+    "WITH Cte AS (SELECT a AS MixedCol FROM x) SELECT MixedCol, CTE.mixedcol FROM Cte",
+]
+
 FAILING = [
     (None, "SELECT * FROM"),
     (None, "SELECT 'unterminated"),
@@ -248,6 +258,10 @@ FAILING = [
     (None, "SELECT x -> (y, z"),
     (None, "CREATE TABLE t (a INT, CONSTRAINT"),
     (None, "MERGE INTO t USING s ON t.a = s.a WHEN MATCHED THEN"),
+    # nodes left with two or more required args missing: which one is reported, and in which order
+    (None, "SELECT a BETWEEN"),
+    (None, "SELECT a FROM t WHERE b NOT BETWEEN"),
+    ("mysql", "SELECT x BETWEEN"),
 ]
 
 _cache = {}
